@@ -33,7 +33,7 @@ ASSUMPTIONS = [
 MUST_REACH = {
     "hist_never": 200, "hist_header_only": 200, "parsed_canonical_identical": 200, "failed_parse_forwardable": 20,
     "noncanonical_zc_message_equal": 20, "eager_parsed": 100, "mut_truncated": 50, "mut_extended": 20, "mut_flipped": 50,
-    "mut_rezero": 20, "templates_covered": 481, "hist_take": 200,
+    "mut_rezero": 20, "templates_covered": 481, "hist_take": 200, "zero_runs_at_chunk_boundary": 20,
 }
 
 _ser = UDPMessageSerializer()
@@ -406,6 +406,35 @@ def nul_variant_spec(rng, tmpl, spec):
     return s2 if touched else None
 
 
+def zero_run_spec(rng, tmpl, spec):
+    """Copy of the spec, zero-coded, where one binary Variable field is a zero run of a length around the 255-byte chunk size of
+    the zero-coding (bracketed by non-zero bytes so that the run on the wire has exactly that length)."""
+    import copy
+    s2 = copy.deepcopy(spec)
+    cands = []
+    for (bname, entries) in s2["blocks"]:
+        if not entries:
+            continue
+        tb = tmpl.get_block(bname)
+        for ent in entries:
+            for var in tb.variables:
+                if var.type.name == "MVT_VARIABLE" and not (var.probably_text and not var.probably_binary) \
+                        and gen_msg.var_max_len(var) >= 257:
+                    cands.append((ent, var))
+    if not cands:
+        return None
+    ent, var = rng.choice(cands)
+    run_len = rng.choice([253, 254, 255, 255, 256, 509, 510, 510, 511, 765])
+    raw = b"\x07" + b"\x00" * run_len + b"\x09"
+    if len(raw) > gen_msg.var_max_len(var):
+        raw = b"\x07" + b"\x00" * 255 + b"\x09"
+        if len(raw) > gen_msg.var_max_len(var):
+            return None
+    ent[var.name] = ["b", raw]
+    s2["flags"] |= 0x80
+    return s2
+
+
 def run(ctx):
     rng = ctx.rng
     templates = gen_msg.all_templates()
@@ -428,6 +457,10 @@ def run(ctx):
                 base = kind.split(":")[0]
                 ctx.count("mut_" + {"truncated-whole": "truncated", "ack-count": "ackcount"}.get(base, base))
                 check_datagram(ctx, mb, {"kind": kind, "from": b if len(b) < 300 else None})
+            s3 = zero_run_spec(rng, tmpl, spec)
+            if s3 is not None and gen_msg.approx_body_size(s3) <= 0x2800:
+                ctx.count("zero_runs_at_chunk_boundary")
+                check_datagram(ctx, wire.ref_encode(tmpl, s3), {"kind": "zero-run-at-chunk-boundary"})
             s2 = nul_variant_spec(rng, tmpl, spec)
             if s2 is not None:
                 ctx.count("mut_nul_variants")
